@@ -10,7 +10,7 @@ if os.path.exists("/verif/checks/not_claimed.json"):
     PENDING = json.load(open("/verif/checks/not_claimed.json"))
 for pid in props:
     path = "/verif/checks/%s.py" % pid
-    if not os.path.exists(path):
+    if not os.path.exists(path) or not os.path.exists("/verif/coq/theories/props/%s.v" % pid):
         na.append(dict(property_id=pid, reason=PENDING.get(pid, "not claimed yet: its model layer and theorems are not built in this tree (see DESIGN.md section 7 for the plan)")))
         continue
     spec = importlib.util.spec_from_file_location("chk_" + pid, path)
